@@ -27,6 +27,9 @@ func fillNodeNameToMetaVictims(args *schedulerapi.ExtenderPreemptionArgs) {
 
 func (p *FloatingIPPlugin) Preempt(args *schedulerapi.ExtenderPreemptionArgs) map[string]*schedulerapi.MetaVictims {
 	fillNodeNameToMetaVictims(args)
+	if args.Pod == nil {
+		return args.NodeNameToMetaVictims
+	}
 	policy := parseReleasePolicy(&args.Pod.ObjectMeta)
 	if policy == constant.ReleasePolicyPodDelete {
 		return args.NodeNameToMetaVictims
